@@ -142,6 +142,14 @@ class GraphGen:
             elif x < 0.86:
                 events.append({'t': 'madd', 'a': pick(0.05), 'm': pick(0.5), 'c': pick(0.5)})
                 vals.append((i, 0))
+            elif x < 0.875:
+                # a caller-owned, literal-only channel list (silent channels / fixed levels) that is
+                # handed, as the same object, to every build of the program
+                mode = r.choice(['ar', 'ar', 'kr'])
+                nch = r.choice([1, 2, 2, 3])
+                chans = [['n', 0, 1] if (mode == 'ar' or r.random() < 0.5) else self.const() for _ in range(nch)]
+                events.append({'t': 'out', 'cls': r.choice(['Out', 'ReplaceOut']), 'mode': mode,
+                               'bus': ['n', r.randrange(0, 8), 1], 'chans': chans, 'shared': True})
             else:
                 mode = 'auto'
                 if self.allow_invalid and r.random() < 0.08:
@@ -242,7 +250,7 @@ class Check(common.Check):
     LEAN_TARGETS = ['Sc3Verif.C01.Props']
     LEAN_DIRS = ['Sc3Verif/C01']
     THEOREMS = ['Sc3Verif.C01.' + t for t in (
-        'opcode_table', 'every_alias_same_index', 'binopPlan_sound', 'mulAddPlan_sound',
+        'opcode_table', 'every_alias_same_index', 'class_flags_table', 'binopPlan_sound', 'mulAddPlan_sound',
         'sum3Plan_sound', 'sum4Plan_sound', 'sum_inputs_permuted', 'determineRate_is_max',
         'listRate_is_max', 'validate_sound', 'poly_isZero_sound')]
     N_QUICK = 500
@@ -278,13 +286,35 @@ class Check(common.Check):
         if res is None:
             self.notes.append('opcode probe failed: ' + err[-300:])
             return []
-        out = []
+        out = self.class_table_static()
         self._opcode_probe = len(res)
         for arity, name, got in res:
             want = (opcodes_ref.UNARY if arity == 'unary' else opcodes_ref.BINARY).index(name)
             if got != want:
                 out.append({'what': f'{arity} operator {name!r} is emitted with special index {got}, the server opcode is {want}',
                             'signature': f'c01:opcode:{arity}:{name}', 'case': {'operator': name, 'arity': arity}})
+        return out
+
+    def class_table_static(self):
+        """only side-effect-free units may be dropped / units with ordering side effects come first:
+        the class table of the code against the reference; for every class that differs, a directed
+        definition with one such unit is built and the emitted bytes are inspected."""
+        res, err = common.run_impl('c01', 'class_probe', {'mode': 'nrt'}, timeout=600)
+        if res is None:
+            self.notes.append('class probe failed: ' + err[-300:])
+            return []
+        ref = c01_regen.class_ref()
+        self._class_probe = len(res)
+        diff = {k: [res[k][0] if k in res else 9, res[k][1] if k in res else 9] for k in ref
+                if k not in res or res[k][:2] != ref[k]}
+        if not diff:
+            return []
+        self.notes.append(f'class table differs from the reference for {sorted(diff)}')
+        wit, err = common.run_impl('c01', 'class_witness', {'mode': 'nrt', 'classes': diff, 'ref': {k: ref[k] for k in diff}}, timeout=900)
+        out = []
+        for k, w in (wit or {}).items():
+            if w.get('violation'):
+                out.append({'what': w['violation'], 'signature': f'c01:class-flag:{k}', 'case': w.get('case')})
         return out
 
     def impl(self, cases):
